@@ -126,7 +126,8 @@ fn gen_queries(prop: &str, n: usize, seed: u64, out: &Path, cap: usize) {
                 let all = 1u64 << bits;
                 let want = if !rook && (deep || bits <= 5) { all } else if deep { 256 } else { (n as u64 / 100).clamp(8, 24) };
                 for k in 0..want {
-                    let subset = if want == all { k } else { rng.gen_range(0..all) };
+                    // (the two extreme patterns - nothing and everything occupied - are always among them)
+                    let subset = if want == all { k } else if k == 0 { 0 } else if k == 1 { all - 1 } else { rng.gen_range(0..all) };
                     if let Some(b) = posgen::occupancy_position(&mut rng, sq, rook, subset) {
                         positions.push(b);
                     }
@@ -343,6 +344,35 @@ fn double_push_starts() -> Vec<String> {
 /// they went up; the marked start is a different position from the repeated one; more than five
 /// occurrences are perfectly legal for the chain).
 fn emit_scripted_repetitions(prop: &str, sink: &mut Sink) {
+        // positions that recur within TWO plies: null moves (the documented TryUnchecked contract: not in check),
+        // alone and between knight hops - repetitions while the halfmove clock is still tiny
+        for (fen, seq) in [("4k3/8/8/8/8/8/8/4K2R w K - 0 1", vec!["0000"; 10]),
+                           ("rnbqkbnr/pppppppp/8/8/8/8/PPPPPPPP/RNBQKBNR w KQkq - 0 1", vec!["g1f3", "0000", "f3g1", "0000", "g1f3", "0000", "f3g1", "0000", "g1f3", "0000", "f3g1", "0000"]),
+                           ("4k3/8/8/3n4/8/8/8/R3K3 b Q - 3 9", vec!["d5b4", "0000", "b4d5", "0000", "d5b4", "0000", "b4d5", "0000", "d5b4", "0000", "b4d5", "0000"])] {
+            let b = owlchess::Board::from_fen(fen).unwrap();
+            let mut c: Option<chain::Chain> = None;
+            sink.begin(&json!({"prop": prop, "scripted_null": fen}));
+            let mut evs = vec![chain::exec(&mut c, &json!({"op": "new", "pos": proj::raw_json(b.raw())}))];
+            for t in seq.iter() {
+                let like = if *t == "0000" { json!({"t": "try", "m": [0, 0, 0, 0]}) } else { json!({"t": "uci", "text": proj::text_json(t)}) };
+                evs.push(chain::exec(&mut c, &json!({"op": "push", "like": like})));
+                evs.push(chain::exec(&mut c, &json!({"op": "calc"})));
+            }
+            for f in ["force", "strict", "relaxed"] {
+                evs.push(chain::exec(&mut c, &json!({"op": "set_auto", "filter": f})));
+                evs.push(chain::exec(&mut c, &json!({"op": "clear_outcome"})));
+            }
+            for _ in 0..6 {
+                evs.push(chain::exec(&mut c, &json!({"op": "pop"})));
+                evs.push(chain::exec(&mut c, &json!({"op": "calc"})));
+            }
+            if sink.room() < evs.len() {
+                sink.rotate();
+            }
+            for e in evs {
+                sink.emit(&e);
+            }
+        }
         // scripted: from the position right after a double step on each file, shuffle the knights back to the
         // same squares three times; the start (WITH the mark) is a different position from the repeated one
         for f in double_push_starts() {
